@@ -3,7 +3,7 @@
    gives a variable are those of the nearest enclosing declarations.  Reading the file (netCDF4 / csv libraries), block-wise
    hyperslab reads (numpy Arrayterator) and value fidelity are outside the model: harness/c20.py compares the handler's dataset
    and the decoded responses for generated files with what the libraries read. *)
-From PydapV Require Import Base Quote DMR NcScope NcScopeProofs.
+From PydapV Require Import Base Quote DMR DMRProofs NcScope NcScopeProofs NcUniq.
 Open Scope nat_scope.
 
 (* for every scope chain (any nesting depth) and every name declared somewhere up the chain: the walk stops at the NEAREST
@@ -24,3 +24,35 @@ Theorem C20_last_registered_name_refuted :
     [("/g1/w", ["/g1/x"]); ("/g2/u", ["/x"])]%string.
 Proof. exact last_match_refuted. Qed.
 Print Assumptions C20_last_registered_name_refuted.
+
+(* one dataset variable per file variable: for every group tree a NetCDF file can hold (any depth; names without a slash,
+   variable names unique within their group, sub-group names unique within their group; the same names may be reused in different
+   groups) the fully qualified names the handler uses as keys are pairwise distinct, and there are exactly as many as the file
+   has variables - nothing is overwritten, dropped or invented *)
+Theorem C20_one_variable_per_file_variable : forall g,
+  wf_grp g ->
+  NoDup (map fst (vars_of [] [] g)) /\ List.length (vars_of [] [] g) = List.length (file_vars g).
+Proof. exact vars_unique. Qed.
+Print Assumptions C20_one_variable_per_file_variable.
+
+Example C20_ex_wf : wf_grp shadow_tree /\ List.length (file_vars shadow_tree) = 2.
+Proof.
+  split; [|reflexivity]. cbn. repeat split; repeat constructor; cbn; try tauto;
+    try (intros [H|H]; [discriminate H|exact H]).
+Qed.
+
+(* the dimension names are references to declarations of the file: [vars_sized] lists, next to every fully qualified dimension
+   name the handler writes (its first projection IS vars_of), the extent NetCDF's scoping rule gives that axis; whenever the short
+   name is declared somewhere up the chain, the fully qualified name is the name of a declaration of the file with exactly that
+   size - for every tree, any depth, any shadowing *)
+Theorem C20_dimension_names_are_declarations : forall g,
+  map (fun v => (fst v, map fst (snd v))) (vars_sized [] [] g) = vars_of [] [] g /\
+  forall v, In v (vars_sized [] [] g) ->
+    Forall (fun r => forall n, snd r = Some n -> In (fst r, n) (decls_of [] true g)) (snd v).
+Proof. intros g. split; [apply vars_sized_names|apply dims_declared]. Qed.
+Print Assumptions C20_dimension_names_are_declarations.
+
+Example C20_ex_sized :
+  map (fun v => (l2s (fst v), map (fun r => (l2s (fst r), snd r)) (snd v))) (vars_sized [] [] shadow_tree) =
+  [("/g1/w", [("/g1/x", Some 5)]); ("/g2/u", [("/x", Some 3)])]%string.
+Proof. vm_compute. reflexivity. Qed.
